@@ -59,6 +59,8 @@ func replay(raw json.RawMessage) (string, bool) {
 		Spec   Spec   `json:"spec"`
 		Target Target `json:"target"`
 	}
+	// fields a replay file written before the check was strengthened does not have keep their "none" value
+	c.Spec = Spec{TwoCommit: -1, DupFrom: -1, DupInto: -1, MissingIn: -1, MapSeed: -1, WKTProv: -1}
 	if err := json.Unmarshal(raw, &c); err != nil {
 		return "cannot decode the case: " + err.Error(), false
 	}
@@ -82,12 +84,22 @@ func replay(raw json.RawMessage) (string, bool) {
 	r := evid.NewRun("C10", "replay", "exploration", 5*time.Minute)
 	ck := &checker{r: r, record: map[string]string{}}
 	plant := s.DupFrom >= 0 || s.MissingIn >= 0
-	if plant {
+	if s.MapSeed >= 0 {
+		if !mapSeedAvailable() {
+			return "the case needs a controlled map iteration seed, and this binary was built without the mapseed tag/overlay", false
+		}
+		setMapSeed(uint64(s.MapSeed), true)
+		defer setMapSeed(0, false)
+	}
+	switch {
+	case s.Fault != nil:
+		ck.checkFault(ctx, b, c.Target, true)
+	case plant:
 		ck.checkPlant(ctx, b, c.Target)
-	} else {
+	default:
 		ck.checkCase(ctx, b, c.Target, true)
 	}
-	if len(s.remotes()) == 0 || onlyBoth(s) {
+	if s.Fault == nil && (len(s.remotes()) == 0 || onlyBoth(s)) {
 		if dir, err := os.MkdirTemp("", "verif-c10-"); err == nil {
 			defer os.RemoveAll(dir)
 			if writeTree(dir, b.Files) == nil {
